@@ -971,7 +971,7 @@ Proof.
       assert (R0 : length (L.recq (L.init (lcfg g kd nd kn0 dists) seeds)) = 0%nat) by reflexivity.
       unfold M. cbn [qW] in E. rewrite R0 in E. pose proof (LP.mu_init (lcfg g kd nd kn0 dists) U seeds) as Mi.
       unfold kn in E. lia. }
-    destruct c as [| qr | qr | qr local |]; cbn [fst]; try apply St.
+    destruct c as [| qr | qr | qr local | | qr]; cbn [fst]; try apply St.
     destruct qr; destruct local; cbn [fst]; first [apply St | split; [exact HB | lia]].
   - destruct (BE_aset U g s q (QToPeers qr ps) HB I) as [B E]. split; [exact B |]. unfold M. cbn [qW] in E.
     assert (G0 : mG (w_eng s (aset q (QToPeers qr ps) (eng s))) = mG s) by reflexivity. lia.
